@@ -12,6 +12,7 @@ var registry = map[string]core.Harness{
 	"C25": TXN{Prop: "C25"},
 	"C27": KL{},
 	"C24": CON{},
+	"C28": AI{},
 }
 
 func TestSim(t *testing.T) { core.WorkerMain(t, registry) }
